@@ -9,7 +9,7 @@ for f in sorted(glob.glob(os.path.join(D, 'seeded', '*', 'meta.json'))):
     sig = '; '.join(s.split(' ')[0] for s in c.get('signatures', [])[:2])
     rows.append('| %s | %s | %s (%s) | exit %s, %s VIOLATION line(s) | %s%s |' % (
         m['id'], m['property'], (m.get('summary') or '').replace('|', '/')[:160], (m.get('needs_to_manifest') or '').replace('|', '/')[:140],
-        c.get('exit'), c.get('violation_lines'), c.get('verdict'), (' — ' + sig) if sig else ''))
+        c.get('exit'), c.get('violation_lines'), c.get('verdict'), ((' — ' + sig) if sig else '') + ((' — *' + m['history'] + '*') if m.get('history') else '')))
 p = os.path.join(D, 'DESIGN.md')
 s = open(p).read()
 a, b = '<!-- SEEDED-TABLE-BEGIN -->', '<!-- SEEDED-TABLE-END -->'
